@@ -107,6 +107,12 @@ def main():
             "cases are enumerated) -> EXEC (`harness exec <op>`, Go binary rebuilt from the tree under test on every run) -> JUDGE (TLC, sharded trace validation) -> report.",
             "", "| property | pipeline | tier | TLC distinct states | TLC transitions | events judged | distinct non-trivial | wall |", "|---|---|---|---|---|---|---|---|"]
     sec += evidence_rows()
+    sec += ["", "Thorough tier, measured on this sandbox (16 cores, 62 GB; wall time / peak memory of the orchestrator process): "
+            "C17 10 s / 0.3 GB, C16 57 s / 1.2 GB, C14 81 s / 2.3 GB, C13 55 s / 2.5 GB, C07 95 s / 3.1 GB, C05 331 s / 15 GB, C15 196 s / 6.9 GB, C12 216 s / 9.4 GB, "
+            "C20 769 s / 28 GB, C18 563 s / 25 GB, C08 147 s / 4.6 GB, C06 521 s / 21 GB, C02 243 s / 5.1 GB, C09 704 s / 25 GB, C01 582 s / 35 GB, C04 630 s / 27 GB, "
+            "C19 880 s / 33 GB, C11 1326 s / 35 GB, C03 829 s / 22 GB, C10 817 s / 21 GB (the last three measured while the seeded-change matrix was running on 4 more cores). "
+            "Two thorough configurations were cut back after they exhausted the memory of the sandbox (pairs of wire edits over four base messages: 2.4 M cases; "
+            "20 000 random behaviours of the countersignature / COSE_Sign models): the bounds in `lib/props.py` are the measured ones."]
     sec += ["", "### 13.3 Harness executors (`/verif/harness`, module `verifharness`, `replace github.com/veraison/go-cose => <tree>`)", "",
             "* `C05`: bytes to all five message/signature decoders. `hdrgrid`: build the in-memory structure of a case, encode it 6 times (+ a sibling, to detect shared output buffers), decode the specification's image, decode the own output and project it.",
             "* `wireflow`: install standard-library signatures over the specification's Sig_structure into TLC-made wire bytes (placeholders), decode, verify through recording wrappers of the built-in verifiers, re-encode twice, clear raw bytes in every layer and re-encode.",
